@@ -390,6 +390,18 @@ Definition content_of (head body : bytes) : bytes := if is_nil_b body then head 
 Definition encode_assertion (h : list (bytes * hv)) (body sig : bytes) : bytes :=
   encode (content_of (join_lines (format_headers h)) body) sig.
 
+(* Encoder (NewEncoder / WriteEncoded / WriteContentSignature / Encode): one item is the bytes of one serialized
+   assertion (content, blank line, signature; WriteContentSignature writes exactly these bytes).  Before every item but
+   the first the encoder writes nextSep = one newline, and after an item that does not end in a newline it writes one
+   (writeSep), so that consecutive assertions are always separated by exactly one blank line. *)
+Fixpoint encode_stream_from (next : bytes) (items : list bytes) : bytes :=
+  match items with
+  | [] => []
+  | e :: r => next ++ e ++ (if last e 0 =? NL then [] else [NL]) ++ encode_stream_from [NL] r
+  end.
+
+Definition encode_stream (items : list bytes) : bytes := encode_stream_from [] items.
+
 (* ------------------------------------------------------------------ bufio.Reader.Peek(n) over a reader that returns its
    data in arbitrary pieces: [buf] is what is buffered and unread, [chunks] are the results of the future Read calls.
    Peek calls fill (one Read each time) until n bytes are buffered or the reader is exhausted; it returns the first n
@@ -580,6 +592,44 @@ Fixpoint stream_all (lim : limits) (d : dstate) (accepted : list bool) : list sr
       end
   end.
 
+(* ------------------------------------------------------------------ definitions for the stream round trip (C20_stream_roundtrip) *)
+(* the doubling loop reaches a window of n bytes without exceeding the limit *)
+Fixpoint ru_ok (fuel : nat) (size maxSize n : N) : bool :=
+  match fuel with
+  | O => false
+  | S f => (n <=? size) || (negb (maxSize <? size * 2) && ru_ok f (size * 2) maxSize n)
+  end.
+
+(* ------------------------------------------------------------------ one assertion as written into a stream *)
+Record item := mkItem { i_h : list (bytes * hv); i_body : bytes; i_s : bytes }.
+Definition i_head (it : item) : bytes := join_lines (format_headers (i_h it)).
+Definition i_content (it : item) : bytes := content_of (i_head it) (i_body it).
+Definition i_sig (it : item) : bytes := i_s it ++ [NL].
+Definition i_parts (it : item) : parts := mkParts (i_h it) (i_body it) (i_sig it) (i_content it).
+Definition written (it : item) : bytes := i_content it ++ NLNL ++ i_sig it.
+
+Definition wf_item (it : item) : Prop :=
+  norm_headers (i_h it) = true /\ i_h it <> [] /\ forallb no_nl (format_headers (i_h it)) = true /\
+  utf8_valid (i_head it) = true /\ body_length (i_h it) = Some (Z.of_N (lenN (i_body it))) /\
+  cut_first_nlnl (i_s it) = None /\ last (i_s it) 0 <> NL /\ i_s it <> [].
+
+Definition lim_ok (lim : limits) (it : item) : Prop :=
+  ru_ok ru_fuel (l_buf lim) (l_headers lim) (lenN (i_head it) + 2) = true /\
+  lenN (i_body it) <= l_body lim /\
+  ru_ok ru_fuel (l_buf lim) (l_sig lim) (lenN (i_s it) + 2) = true.
+
+(* what one Encoder writes for a list of assertions: the items separated by one extra newline (a blank line in all) *)
+Fixpoint stream_of (l : list item) : bytes :=
+  match l with
+  | [] => []
+  | [it] => written it
+  | it :: r => written it ++ NL :: stream_of r
+  end.
+
+(* the Encoder: each assertion is handed over complete or without the final newline of its signature *)
+Definition enc_item (trim : bool) (it : item) : bytes := if trim then i_content it ++ NLNL ++ i_s it else written it.
+Definition enc_items (l : list (bool * item)) : list bytes := map (fun x => enc_item (fst x) (snd x)) l.
+
 (* ------------------------------------------------------------------ correspondence interface *)
 Inductive pres := POk (h : list (bytes * hv)) | PErr | PPanic.
 
@@ -602,7 +652,11 @@ Inductive case :=
    back by a decoder whose limits are ample, through a reader that hands out the bytes [chunk] at a time (0 = all at
    once); sizes are chosen so that the delimiters fall on and around the decoder's read boundaries *)
 | CChunk (lim : limits) (origs : list (list (bytes * hv) * bytes * bytes * bytes)) (stream : bytes) (chunk : N)
-         (results : list ores) (verified timeout : bool).
+         (results : list ores) (verified timeout : bool)
+(* the same, the stream being what ONE real Encoder wrote when given [items] (the serialized assertions, some with
+   their final newline cut off) through Encode / WriteEncoded / WriteContentSignature *)
+| CEnc (lim : limits) (items : list bytes) (origs : list (list (bytes * hv) * bytes * bytes * bytes)) (stream : bytes)
+       (chunk : N) (results : list ores) (verified timeout : bool).
 
 Definition pres_of (r : res (list (bytes * hv))) : pres :=
   match r with Ok h => POk (sort_headers h) | Err => PErr | _ => PPanic end.
@@ -658,6 +712,9 @@ Definition mismatch (c : case) : bool :=
       negb (stream_agree (stream_all lim (mkD stream false) (accepted_of results)) results)
   | CChunk lim _ stream _ results _ _ =>
       negb (stream_agree (stream_all lim (mkD stream false) (accepted_of results)) results)
+  | CEnc lim items _ stream _ results _ _ =>
+      negb (beq (encode_stream items) stream)
+      || negb (stream_agree (stream_all lim (mkD stream false) (accepted_of results)) results)
   end.
 
 (* The property's conclusion on the observed behaviour only (no model function of the codec is used):
@@ -709,6 +766,10 @@ Definition monitor_fail (c : case) : bool :=
          | _ => true
          end
   | CChunk lim origs _ _ results verified timeout =>
+      timeout || existsb is_panic results
+      || (forallb (fun o => norm_headers (fst (fst (fst o))) && forallb (fun kv => lines_ok (snd kv)) (fst (fst (fst o)))) origs
+          && negb (same_all origs results && verified))
+  | CEnc lim _ origs _ _ results verified timeout =>
       timeout || existsb is_panic results
       || (forallb (fun o => norm_headers (fst (fst (fst o))) && forallb (fun kv => lines_ok (snd kv)) (fst (fst (fst o)))) origs
           && negb (same_all origs results && verified))
